@@ -62,15 +62,17 @@
 (*  UnreachableGivesFalse : consequence checked in the exhaustive model.   *)
 (*                                                                         *)
 (* Configuration lives in variables that never change:                     *)
-(*   ifs[i] = [node, ip, net, mac, seg]  the layer-3 interfaces            *)
+(*   ifs[i] = [node, ip, mac, seg]  the layer-3 interfaces                 *)
 (*   kind[n] \in {"host","router"}, gw[n] = default gateway (0 = none)     *)
-(*   netof[ip] = the modelled network an address lies in (0 = none)        *)
+(*   sub[i] = the addresses that lie in the subnet of interface i (masks   *)
+(*   may differ between the interfaces of one segment, and two interfaces  *)
+(*   of one router may sit in one broadcast domain)                        *)
 (* Addresses, MACs, nodes, interfaces, networks, segments are small        *)
 (* naturals; MAC 0 is the broadcast address.                               *)
 (***************************************************************************)
 EXTENDS Naturals, FiniteSets, Sequences
 
-VARIABLES ifs, kind, gw, netof,            \* configuration
+VARIABLES ifs, kind, gw, sub,              \* configuration
           power, up,                       \* node is ON / interface is enabled
           cache,                           \* cache[n] : ip -> [mac, ifc]
           tally,                           \* tally[n] : identifier -> echo replies counted (ICMP.request_replies)
@@ -82,7 +84,7 @@ VARIABLES ifs, kind, gw, netof,            \* configuration
           wire, got, nfid,                 \* frames sent in this call, deliveries <<fid, i>>, next frame id
           last,                            \* outcome of the last finished ping
           act                              \* name and arguments of the last action
-cvars == <<ifs, kind, gw, netof>>
+cvars == <<ifs, kind, gw, sub>>
 dvars == <<power, up, cache, tally, ping, ask, owed, fwd, tok, wire, got, nfid, last>>
 avars == <<cvars, dvars, act>>
 
@@ -91,9 +93,8 @@ Ifs == 1..Len(ifs)
 Bcast == 0
 IfsOf(n) == {i \in Ifs : ifs[i].node = n}
 IpsOf(n) == {ifs[i].ip : i \in IfsOf(n)}
-NetOf(ip) == IF ip \in DOMAIN netof THEN netof[ip] ELSE 0
 \* the interfaces of n whose subnet holds ip
-LocalIf(n, ip) == {i \in IfsOf(n) : NetOf(ip) # 0 /\ ifs[i].net = NetOf(ip)}
+LocalIf(n, ip) == {i \in IfsOf(n) : ip \in sub[i]}
 \* ... and that are enabled ("considers only enabled network interfaces", SessionManager.resolve_outbound_network_interface)
 LocalUpIf(n, ip) == {i \in LocalIf(n, ip) : up[i]}
 NoPing == [n |-> 0, tgt |-> 0, cnt |-> 0, id |-> 0, sent |-> 0]
@@ -101,8 +102,10 @@ NoAsk == [tip |-> 0, left |-> 0]
 Empty == <<>>                                 \* the function with empty domain
 Kinds == {"areq", "arep", "ereq", "erep", "data"}
 
-\* a frame: [fid, k, out (sending interface), edst, isrc, idst, id, seq, tip, tmac]; source MAC and segment are
-\* those of the sending interface; for ARP the sender fields are isrc / source MAC (checked where frames are logged)
+\* a frame: [fid, k, out (sending interface), edst, isrc, idst, id, seq, sip, smac, tip, tmac]; source MAC and
+\* segment are those of the sending interface; sip / smac / tip / tmac = the ARP packet (0 for other frames): a request
+\* names the sending interface, a reply names the interface that owns the requested address - it may leave the
+\* router through another of its interfaces (the session manager picks the first enabled one towards the asker)
 Esrc(f) == ifs[f.out].mac
 Seg(f) == ifs[f.out].seg
 FrameOf(fid) == CHOOSE f \in wire : f.fid = fid
@@ -113,8 +116,8 @@ Learn(c, n, ip, mac, i) ==
 Without(f, x) == [y \in DOMAIN f \ {x} |-> f[y]]
 Count(n, id) == IF id \in DOMAIN tally[n] THEN tally[n][id] ELSE 0
 
-ArpInit(ifs0, kind0, gw0, netof0, power0, up0, cache0) ==
-    /\ ifs = ifs0 /\ kind = kind0 /\ gw = gw0 /\ netof = netof0
+ArpInit(ifs0, kind0, gw0, sub0, power0, up0, cache0) ==
+    /\ ifs = ifs0 /\ kind = kind0 /\ gw = gw0 /\ sub = sub0
     /\ power = power0 /\ up = up0 /\ cache = cache0
     /\ tally = [n \in 1..Len(kind0) |-> Empty]
     /\ ping = NoPing
@@ -162,7 +165,9 @@ Resolved(n, f) ==
         /\ cache[n][hop].mac = f.edst /\ cache[n][hop].ifc = f.out
         /\ IF LocalUpIf(n, f.idst) # {} THEN hop = f.idst
            ELSE (kind[n] = "host" => hop = gw[n])
-OwedArp(f) == {o \in owed : o.n = ifs[f.out].node /\ o.k = "arep" /\ o.via = f.out /\ o.to = f.idst /\ o.mac = f.edst}
+\* the reply claims the (ip, mac) pair of the interface that owns the requested address and received the request
+OwedArp(f) == {o \in owed : o.n = ifs[f.out].node /\ o.k = "arep" /\ o.to = f.tip /\ o.mac = f.tmac
+                            /\ f.sip = ifs[o.via].ip /\ f.smac = ifs[o.via].mac}
 OwedEchoAny(f) == {o \in owed : o.n = ifs[f.out].node /\ o.k = "erep" /\ o.to = f.idst}
 OwedEcho(f) == {o \in OwedEchoAny(f) : o.id = f.id}      \* (the reply's sequence number is free)
 FwdOf(f) == {t \in fwd : t.n = ifs[f.out].node /\ t.k = f.k /\ t.isrc = f.isrc /\ t.idst = f.idst
@@ -176,15 +181,17 @@ TxArpRequestOk(f) == LET n == ifs[f.out].node IN
     /\ ask[n].left = 1 /\ f.tip = ask[n].tip
 TxArpRequestShape(f) == LET n == ifs[f.out].node IN
     /\ f.edst = Bcast /\ f.idst = f.tip /\ f.isrc = ifs[f.out].ip /\ f.out \in LocalIf(n, f.tip)
-TxArpReplyOk(f) == OwedArp(f) # {} /\ f.isrc = ifs[f.out].ip /\ f.tip = f.idst /\ f.tmac = f.edst
+    /\ f.sip = ifs[f.out].ip /\ f.smac = ifs[f.out].mac
+TxArpReplyOk(f) == OwedArp(f) # {}
+TxArpReplyShape(f) == f.isrc = ifs[f.out].ip /\ f.tip = f.idst /\ f.tmac = f.edst
 TxEchoRequestOk(f) == FromPing(f) \/ FwdOf(f) # {}
 TxEchoReplyOk(f) == (OwedEchoAny(f) # {} /\ f.isrc \in IpsOf(ifs[f.out].node)) \/ FwdOf(f) # {}
 TxEchoReplyIdOk(f) == OwedEchoAny(f) # {} => OwedEcho(f) # {}
 TxUnicastOk(f) == f.k \in {"ereq", "erep"} => Resolved(ifs[f.out].node, f)
 
 \* an interface hands a frame to its link (NetworkInterface.send_frame); ok = the link took it.  The two clauses
-\* TxEchoReplyIdOk and TxUnicastOk are not guards of the action: they are judged on the frames (trace clauses
-\* EchoReplySameIdentifier / UnicastToResolvedMac, invariants of the same names in MC_ArpIcmp)
+\* TxArpReplyOk, TxEchoReplyIdOk and TxUnicastOk are not guards of the action: they are judged on the frames (trace clauses
+\* ArpReplyOnlyByOwner / EchoReplySameIdentifier / UnicastToResolvedMac, invariants in MC_ArpIcmp)
 Tx(f, ok) ==
     LET n == ifs[f.out].node IN
     /\ f.out \in Ifs /\ f.k \in Kinds
@@ -197,8 +204,8 @@ Tx(f, ok) ==
               /\ ask' = [ask EXCEPT ![n] = [@ EXCEPT !.left = 0]]
               /\ UNCHANGED <<owed, fwd, ping>>
          [] f.k = "arep" ->
-              /\ TxArpReplyOk(f)
-              /\ owed' = owed \ {CHOOSE o \in OwedArp(f) : TRUE}
+              /\ TxArpReplyShape(f)
+              /\ owed' = IF OwedArp(f) # {} THEN owed \ {CHOOSE o \in OwedArp(f) : TRUE} ELSE owed
               /\ UNCHANGED <<ask, fwd, ping>>
          [] f.k = "ereq" ->
               /\ TxEchoRequestOk(f)
@@ -223,7 +230,7 @@ Accepts(i, f) ==
     \/ f.edst = ifs[i].mac
     \/ f.edst = Bcast /\ (kind[ifs[i].node] = "router" \/ f.idst = ifs[i].ip)
 Deliverable(i, f) ==
-    /\ f \in wire /\ Seg(f) = ifs[i].seg /\ ifs[i].node # ifs[f.out].node
+    /\ f \in wire /\ Seg(f) = ifs[i].seg /\ i # f.out
     /\ <<f.fid, i>> \notin got
     /\ power[ifs[i].node] /\ up[i] /\ Accepts(i, f)
 OwnUp(n, ip) == \E j \in IfsOf(n) : ifs[j].ip = ip /\ up[j]
@@ -231,7 +238,7 @@ OwnUp(n, ip) == \E j \in IfsOf(n) : ifs[j].ip = ip /\ up[j]
 \* what the receiving node owes / takes on after a frame came in on interface i
 NewOwed(i, f) == LET n == ifs[i].node IN
     IF f.k = "areq" /\ f.tip = ifs[i].ip
-    THEN {[n |-> n, k |-> "arep", via |-> i, to |-> f.isrc, mac |-> Esrc(f), id |-> 0, seq |-> 0]}
+    THEN {[n |-> n, k |-> "arep", via |-> i, to |-> f.sip, mac |-> f.smac, id |-> 0, seq |-> 0]}
     ELSE IF f.k = "ereq" /\ (IF kind[n] = "host" THEN f.idst = ifs[i].ip ELSE OwnUp(n, f.idst))
     THEN {[n |-> n, k |-> "erep", via |-> 0, to |-> f.isrc, mac |-> 0, id |-> f.id, seq |-> f.seq]}
     ELSE {}
@@ -244,13 +251,17 @@ NewTok(i, f) == LET n == ifs[i].node IN
     THEN {[n |-> n, id |-> f.id, fid |-> f.fid]}
     ELSE {}
 
+\* the cache after a frame came in on interface i: the frame's source (Node.receive_frame), then for an ARP reply the
+\* packet's sender (ARP._process_arp_reply; a router only when the reply is for the receiving interface)
+Learnt(c, i, f) == LET n == ifs[i].node  c1 == Learn(c, n, f.isrc, Esrc(f), i) IN
+    IF f.k = "arep" /\ (kind[n] = "host" \/ f.tip = ifs[i].ip) THEN Learn(c1, n, f.sip, f.smac, i) ELSE c1
 \* Node.receive_frame / Router.receive_frame: learn the sender, then hand the frame to the ARP / ICMP handler
 Rx(i, fid) ==
     /\ i \in Ifs /\ \E f \in wire : f.fid = fid
     /\ LET f == FrameOf(fid)  n == ifs[i].node IN
        /\ Deliverable(i, f)
        /\ got' = got \cup {<<fid, i>>}
-       /\ cache' = [cache EXCEPT ![n] = Learn(@, n, f.isrc, Esrc(f), i)]
+       /\ cache' = [cache EXCEPT ![n] = Learnt(@, i, f)]
        /\ owed' = owed \cup NewOwed(i, f)
        /\ fwd' = fwd \cup NewFwd(i, f)
        /\ tok' = tok \cup NewTok(i, f)
@@ -278,7 +289,7 @@ CountReply(n, id) ==
 \* a reply that is owed but cannot be sent: the interface it has to leave through is down, or (echo reply) the way
 \* back is not resolved
 Excused(o) ==
-    IF o.k = "arep" THEN ~up[o.via] \/ ~power[o.n]
+    IF o.k = "arep" THEN ~up[o.via] \/ ~power[o.n] \/ LocalUpIf(o.n, o.to) = {}
     ELSE LET hop == IF LocalUpIf(o.n, o.to) # {} THEN o.to ELSE IF kind[o.n] = "host" THEN gw[o.n] ELSE 0 IN
          ~power[o.n] \/ hop = 0 \/ hop \notin DOMAIN cache[o.n] \/ ~up[cache[o.n][hop].ifc]
 OwnersAnswered == \A o \in owed : Excused(o)
@@ -346,5 +357,5 @@ CacheStep ==
         \/ act'[1] = "ClearCache"
         \/ /\ act'[1] = "Rx"
            /\ \A ip \in DOMAIN cache[n] : ip \in DOMAIN cache'[n] /\ cache'[n][ip] = cache[n][ip]
-           /\ Cardinality(DOMAIN cache'[n]) = Cardinality(DOMAIN cache[n]) + 1
+           /\ Cardinality(DOMAIN cache'[n]) \in {Cardinality(DOMAIN cache[n]) + 1, Cardinality(DOMAIN cache[n]) + 2}
 =============================================================================
